@@ -36,7 +36,15 @@ def run(tier):
     ranges = [[lo, hi] for lo in probes for hi in probes]
     cases = []
     for i, ordr in enumerate(full + rest):
-        cases.append({"kind": "skiplist", "cmp": ["int", "string", "bytes", "intdiff", "bytesle"][i % 5], "inserts": ordr, "probes": probes, "ranges": ranges})
+        c = {"kind": "skiplist", "cmp": ["int", "string", "bytes", "intdiff", "bytesle"][i % 5], "inserts": ordr, "probes": probes, "ranges": ranges}
+        if i % 2 == 0:
+            # an iterator that is open while the keys missing from the order (and keys beyond both ends) are inserted
+            lo = rng.randrange(0, 7)
+            late = [k for k in range(-1, 9) if k not in ordr]
+            rng.shuffle(late)
+            c["live"] = {"kind": ["between", "from", "all", "between"][(i // 2) % 4], "lo": lo, "hi": rng.randrange(lo, 8), "pre": rng.choice([0, 0, 1, 2]),
+                         "late": late[:rng.randrange(1, len(late) + 1)]}
+        cases.append(c)
     # random big orders
     for n in ([100, 1000, 10000] if thorough else [100, 2000]):
         ks = rng.sample(range(0, n * 3), n)
